@@ -218,6 +218,9 @@ func GenerateCases(seed int64, n, blocks int, outPath, scratch, jsonPath, profil
 					break
 				}
 			}
+			// and the very first block: nothing is committed yet, Info reports height 0 and consensus
+			// initialises the chain again before it replays the block
+			ats = append(ats, 0)
 			for _, at := range ats {
 				outs, cerr := CrashExperiment(h, at, scratch, fmt.Sprintf("crash-%d-%d", i, at))
 				if cerr != nil {
